@@ -232,7 +232,7 @@ func ruleLevelsSorted(p *Prog, r *Report, rule string) {
 				return false
 			}
 			ph, ok := b.X.(*ssa.Phi)
-			return ok && ph.Comment == "level"
+			return ok && phiNamedOr(ph, "level", isCountingPhi)
 		}
 		ordNeverAfter(p, r, fn, "added-then-sorted", nil, addNew, "adding a table to a level", storeLevel, "installing the level", orPred(sortNum, sortKey, nextLevel), "a sort (within the same level's iteration)")
 		lvl0 := cmpAtom("level==0", token.EQL, func(v ssa.Value) bool { _, isCall := v.(*ssa.Call); return !isCall }, mConstInt(0))
@@ -402,7 +402,7 @@ func ruleCompactionEdit(p *Prog, r *Report, rule string) {
 				return false
 			}
 			ph, ok := b.X.(*ssa.Phi)
-			return ok && ph.Comment == "level" && mConstInt(1)(b.Y) && hasReferrerPhi(b)
+			return ok && phiNamedOr(ph, "level", isCountingPhi) && mConstInt(1)(b.Y) && hasReferrerPhi(b)
 		}
 		if countInstr(fn, inc) > 0 {
 			checkGuard(p, r, GuardSpec{Rule: "push-down-only-without-l0-overlap", Fn: fn, Target: inc, TargetDesc: "level++ (pushing the flushed table below level 0)", Atoms: []Atom{l0}, G: func(a []bool) bool { return !a[0] }, GDesc: "¬levels[0].overlaps(umin, umax)", MinTargets: 1})
